@@ -251,6 +251,8 @@ def _jsonable(o, depth=0):
             return [_jsonable(x, depth + 1) for x in o[:24]] + [f'... ({len(o)} items)']
         return [_jsonable(x, depth + 1) for x in o]
     if isinstance(o, dict):
+        if len(o) > 24:
+            return f'dict({len(o)} items)'
         return {str(k): _jsonable(v, depth + 1) for k, v in o.items()}
     if isinstance(o, np.ndarray):
         if o.size > 24:
